@@ -664,6 +664,16 @@ func reifyDoArray(
 	val value,
 	arr []value,
 ) (reflect.Value, Error) {
+	if len(arr) > 0 && arr[0] != val {
+		// val is a reference to a list (not a primitive taken as a list of
+		// one): reaching it again below one of its own elements is a cycle
+		leave, err := opts.opts.enterDynamic(val)
+		if err != nil {
+			return reflect.Value{}, err
+		}
+		defer leave()
+	}
+
 	aLen := len(arr)
 	tLen := to.Len()
 	for idx := 0; idx < tLen; idx++ {
